@@ -171,6 +171,12 @@ Definition complete_arg_ord (ot : otable) (tbl : pvtable) (arg : bytes) (c : cmd
   | KOther r => r
   end.
 
+(** with [valid_arg_found]: behind an argument of a command whose arguments conflict with subcommands no subcommand is
+    offered - the candidates of the command without its subcommands ([EngineProofs.complete_arg_v_cut]) *)
+Definition complete_arg_ord_v (ot : otable) (tbl : pvtable) (arg : bytes) (c : cmd) (pos_index : N) (st : pstate)
+           (valid_arg_found : bool) : cres :=
+  complete_arg_ord ot tbl arg (sub_cut c valid_arg_found) pos_index st.
+
 Definition complete_model_ord (ot : otable) (tbl : pvtable) (c : cmd) (args : list bytes) (arg_index : N) : cres :=
   match build_full (build_fuel c) c with
   | BInvalid => CInvalid
@@ -180,7 +186,7 @@ Definition complete_model_ord (ot : otable) (tbl : pvtable) (c : cmd) (args : li
       | WPanic s => CPanic s
       | WFuel => CFuel
       | WEnd => CErr
-      | WAt arg cur pi st _ => complete_arg_ord ot tbl arg cur pi st
+      | WAt arg cur pi st _ vaf => complete_arg_ord_v ot tbl arg cur pi st vaf
       end
   end.
 
@@ -520,6 +526,12 @@ Proof.
       as [| |posv| |]; cbn [kbind] in Ek; try (inversion Ek; fail).
     destruct (complete_option tbl w c) as [| |opts| |]; cbn [kbind] in Ek; inversion Ek.
 Qed.
+
+(** ... and of the engine's function with [valid_arg_found] *)
+Theorem complete_arg_ord_v_perm ot tbl w c pi st vaf l' :
+  complete_arg_ord_v ot tbl w c pi st vaf = COk l' ->
+  exists l, complete_arg_v tbl w c pi st vaf = COk l /\ Permutation l' l.
+Proof. unfold complete_arg_ord_v. rewrite complete_arg_v_cut. apply complete_arg_ord_perm_all. Qed.
 
 (** * Non-vacuity: display orders that reverse the declaration order, a heading, a subcommand *)
 Module OrderExample.
